@@ -625,7 +625,8 @@ fn run_virtio(c: &Case) -> String {
     let fs = new_fs(c);
     let server = Server::new(fs.clone());
     prior_init(&server, &fs, c.prior_minor);
-    let memsz = 0x100000 + 2 * (c.req.len() + c.cap) + 0x400000;
+    // sized to the case: the segments are laid out from 0x100000 with gaps of 37 / 41 bytes
+    let memsz = 0x100000 + c.req.len() + c.cap + 64 * (c.rsegs.len() + c.wsegs.len() + 2) + 0x1000;
     let mem: GuestMemoryMmap<()> = GuestMemoryMmap::from_ranges(&[(GuestAddress(0), memsz)]).unwrap();
     let vq = MockSplitQueue::new(&mem, 256);
     let mut descs: Vec<RawDescriptor> = vec![];
